@@ -7,15 +7,15 @@ Local Open Scope Z_scope.
 
 Definition cfg0 : cfg :=
   {| fix_bz_rewind := false; fix_bz_eof := false; fix_here := false; fix_text_pseudo := false;
-     fix_leak := false; fix_negseek := false; fix_phase_sign := false |}.
+     fix_leak := false; fix_negseek := false; fix_phase_sign := false; fix_bz_err := false |}.
 (* the six C02 repairs (commits e69eeed .. e34b6b0) *)
 Definition cfg_all : cfg :=
   {| fix_bz_rewind := true; fix_bz_eof := true; fix_here := true; fix_text_pseudo := true;
-     fix_leak := true; fix_negseek := true; fix_phase_sign := false |}.
+     fix_leak := true; fix_negseek := true; fix_phase_sign := false; fix_bz_err := false |}.
 (* ... plus the PHASE pointer convention of proposed_fixes/C17-1.diff *)
 Definition cfg_all7 : cfg :=
   {| fix_bz_rewind := true; fix_bz_eof := true; fix_here := true; fix_text_pseudo := true;
-     fix_leak := true; fix_negseek := true; fix_phase_sign := true |}.
+     fix_leak := true; fix_negseek := true; fix_phase_sign := true; fix_bz_err := true |}.
 
 (* the property, for the tree described by configuration c (decoder = libbz2 with a 4-byte window
    in the witnesses; the statement itself is for any decoder) *)
